@@ -45,13 +45,18 @@ def perturb(kind):
     importlib.reload(random) if False else None
     if kind == "none":
         return
+    import numpy as np
+
     if kind == "seed1":
         random.seed(1)
+        np.random.seed(1)  # numpy's global generator as well
         return
     if kind == "seed2+3":
         random.seed(2)
+        np.random.seed(2)
         for _ in range(3):
             random.random()
+            np.random.random()
         return
     if kind == "extreme":
         # force the module-level generator to its extreme outputs: anything
@@ -217,6 +222,11 @@ def battery():
         start_tree(net).subtree_reconfigure(subtree_size=3, maxiter=2)
         .subtree_reconfigure(subtree_size=4, select="random", maxiter=4,
                              seed=s))
+    B["forest[select=max+min,search=random]"] = lambda net, s: tree_sig(
+        start_tree(net).subtree_reconfigure_forest(
+            num_trees=3, num_restarts=2, subtree_maxiter=3, subtree_size=4,
+            subtree_select=("max", "min"), subtree_search=("random",),
+            parallel=False, seed=s))
     B["subtree_reconfigure_forest"] = lambda net, s: tree_sig(
         start_tree(net).subtree_reconfigure_forest(
             num_trees=3, num_restarts=2, subtree_maxiter=3, subtree_size=4,
@@ -280,6 +290,9 @@ def battery():
         ut.make_rand_size_dict_from_inputs(net[0], d_min=2, d_max=5, seed=s))
     B["make_arrays"] = lambda net, s: jsonable(
         ut.make_arrays_from_inputs(net[0], net[2], seed=s))
+    for dt in ("float32", "complex64", "complex128"):
+        B[f"make_arrays[{dt}]"] = lambda net, s, dt=dt: jsonable(
+            ut.make_arrays_from_inputs(net[0], net[2], seed=s, dtype=dt))
     return B
 
 
